@@ -4,6 +4,9 @@
 // Oracle = the statement: body > 100 KiB (100 MiB for PUT /vmAgentLog and POST /machine/?comp=telemetrydata, any letter case of the URL)
 // => 4xx and not one byte relayed, whether declared by Content-Length or discovered while reading a chunked body;
 // body <= limit => accepted and relayed intact.
+// Two paths: (1) the handler behind a replica of the limit wiring with a constructed connection context (WireServer / IMDS
+// destinations); (2) where the kernel allows creating a BPF map: the REAL handle_new_tcp_connection with the connection attributed
+// through a real audit_map record (destination = the mock host), so the real limit wiring is the one under test.
 // The 100 MiB class is covered by: exempt uploads of limit+1 .. 3 x limit bytes pass intact; a declared Content-Length of 100 MiB + 1 is refused.
 #![allow(dead_code, unused_imports, clippy::all)]
 include!("/verif/witness/handler_harness.inc.rs");
@@ -26,13 +29,17 @@ fn console_vxw_c15() {
     let low = 100 * 1024usize;
     let large = 100 * 1024 * 1024usize;
 
-    let mut run = |n: &mut u64, exempt: bool, elevated: bool, method: &str, target: &str, body: ReqBody, framing: &str| {
+    // the kernel audit map, where available: the same enumeration also goes through the real handle_new_tcp_connection
+    let audit = h.install_audit_map();
+    let paths: Vec<bool> = if audit.is_some() { vec![false, true] } else { vec![false] };
+
+    let mut run = |n: &mut u64, real: bool, exempt: bool, elevated: bool, method: &str, target: &str, body: ReqBody, framing: &str| {
         *n += 1;
-        let (ip, port) = if elevated { ("168.63.129.16", 80u16) } else { ("169.254.169.254", 80u16) };
+        let (ip, port) = if real { ("127.0.0.1", h.host.port) } else if elevated { ("168.63.129.16", 80u16) } else { ("169.254.169.254", 80u16) };
         let size = body.bytes().len();
         let limit = if exempt { large } else { low };
         let wire = vx_request_bytes(method, target, &[("Host".to_string(), ip.to_string()), ("Content-Type".to_string(), "application/octet-stream".to_string())], &body);
-        let (r, bytes, reqs) = h.one(&h.ps, &Attribution::full(elevated, ip, port), wire, false);
+        let (r, bytes, reqs) = if real { h.one_real(&h.ps, Some((audit.as_ref().unwrap(), elevated)), wire, false) } else { h.one(&h.ps, &Attribution::full(elevated, ip, port), wire, false) };
         let st = vx_status(&r);
         let mut problems: Vec<String> = Vec::new();
         if size > limit {
@@ -49,7 +56,7 @@ fn console_vxw_c15() {
             }
         }
         if !problems.is_empty() {
-            vx_fail(serde_json::json!({"property": "C15", "input": {"request": format!("{} {}", method, target), "exempt_upload": exempt, "limit": limit, "body_bytes": size, "declared_by": framing, "elevated": elevated, "destination": format!("{}:{}", ip, port)},
+            vx_fail(serde_json::json!({"property": "C15", "input": {"path": if real { "real handle_new_tcp_connection, connection attributed through the kernel audit map" } else { "handler behind the replicated limit wiring, constructed connection context" }, "request": format!("{} {}", method, target), "exempt_upload": exempt, "limit": limit, "body_bytes": size, "declared_by": framing, "elevated": elevated, "destination": format!("{}:{}", ip, port)},
                 "got": {"client_status": st, "bytes_at_host": bytes, "problems": problems}, "want": if size > limit { "4xx and 0 bytes relayed" } else { "relayed intact, host's 200 at the client" }}));
         }
     };
@@ -65,7 +72,8 @@ fn console_vxw_c15() {
         ]
     };
 
-    for key in [true, false] {
+    for (key, real) in [(true, false), (false, false), (true, true)] {
+        if real && audit.is_none() { continue; }
         h.set_key(if key { Some(vx_key()) } else { None });
         // ---- non-exempt method/URL combinations (incl. the exempt URLs with the other method and near-miss URLs)
         let non_exempt: Vec<(&str, &str, bool)> = vec![
@@ -75,7 +83,7 @@ fn console_vxw_c15() {
         for (method, target, elevated) in non_exempt.iter() {
             for size in [low - 1, low, low + 1] {
                 for (fname, body) in framings(size) {
-                    run(&mut n, false, *elevated, method, target, body, &fname);
+                    run(&mut n, real, false, *elevated, method, target, body, &fname);
                 }
             }
         }
@@ -84,7 +92,7 @@ fn console_vxw_c15() {
         for (method, target) in exempt.iter() {
             for size in [low - 1, low, low + 1, 3 * low + 7] {
                 for (fname, body) in framings(size).into_iter().take(3) {
-                    run(&mut n, true, true, method, target, body, &fname);
+                    run(&mut n, real, true, true, method, target, body, &fname);
                 }
             }
         }
@@ -97,15 +105,17 @@ fn console_vxw_c15() {
         ("POST", "/machine?comp=upload", low + 1, low), ("POST", "/machine?comp=upload", large, low), ("PUT", "/machine/x", 10 * 1024 * 1024, low),
         ("PUT", "/vmAgentLog", large + 1, large), ("PUT", "/VMAGENTLOG", large + 1, large), ("POST", "/machine/?comp=telemetrydata", large + 1, large), ("POST", "/Machine/?Comp=TelemetryData", 2 * large, large),
     ];
+    for real in paths.iter() {
     for (method, target, size, limit) in declared.iter() {
         n += 1;
         let wire = format!("{} {} HTTP/1.1\r\nHost: 168.63.129.16\r\nContent-Length: {}\r\n\r\n", method, target, size).into_bytes();
-        let (r, bytes, _reqs) = h.one(&h.ps, &Attribution::full(true, "168.63.129.16", 80), wire, false);
+        let (r, bytes, _reqs) = if *real { h.one_real(&h.ps, Some((audit.as_ref().unwrap(), true)), wire, false) } else { h.one(&h.ps, &Attribution::full(true, "168.63.129.16", 80), wire, false) };
         let st = vx_status(&r);
         if !(400..500).contains(&st) || bytes != 0 {
-            vx_fail(serde_json::json!({"property": "C15", "input": {"request": format!("{} {}", method, target), "limit": limit, "declared_content_length": size, "body_sent": "none (headers only)"},
+            vx_fail(serde_json::json!({"property": "C15", "input": {"path": if *real { "real handle_new_tcp_connection" } else { "replicated limit wiring" }, "request": format!("{} {}", method, target), "limit": limit, "declared_content_length": size, "body_sent": "none (headers only)"},
                 "got": {"client_status": st, "client_error": r.as_ref().err(), "bytes_at_host": bytes}, "want": "4xx and 0 bytes relayed"}));
         }
+    }
     }
     println!("VXW-DONE {}", n);
 }
